@@ -125,3 +125,26 @@ impl<W: AsyncWrite + Unpin> AsyncWriter<W> {
         Ok(())
     }
 }
+
+// Verification hooks (add-only, compiled only with `--cfg minicbor_verif`): construct a writer in
+// an arbitrary internal state and observe that state.
+#[cfg(minicbor_verif)]
+#[doc(hidden)]
+impl<W> AsyncWriter<W> {
+    /// `write_from == None`: `State::None`; `Some(o)`: `State::WriteFrom(o)`.
+    pub fn __verif_from_parts(writer: W, buffer: Vec<u8>, max_len: usize, write_from: Option<usize>) -> Self {
+        let state = match write_from { None => State::None, Some(o) => State::WriteFrom(o) };
+        Self { writer, buffer, max_len, state }
+    }
+
+    pub fn __verif_state(&self) -> Option<usize> {
+        match self.state {
+            State::None => None,
+            State::WriteFrom(o) => Some(o)
+        }
+    }
+
+    pub fn __verif_buffer(&self) -> &[u8] {
+        &self.buffer
+    }
+}
